@@ -44,7 +44,97 @@ pub fn syms_of(kind: Kind) -> Vec<char> {
     }
 }
 
+/// Patterns as people write them: a date group and/or a clock group in a conventional order with
+/// conventional widths, every separator drawn on its own (`HH:mm.ss`, `d/M-yyyy`, `yyyy-MM-dd'T'HH:mm:ssxxx`).
+/// The free generator almost never produces five or more tokens of such a shape in a row, and a
+/// fast path for "the usual pattern" only ever sees those.
+fn gen_idiomatic(u: &mut Unstructured, kind: Kind) -> arbitrary::Result<Vec<Tok>> {
+    const SEPS: &[&str] = &[":", ".", "-", "/", " ", ":", "-", ", ", "_", ""];
+    let fld = |sym: char, width: usize| Tok::Field { sym, width };
+    let mut toks: Vec<Tok> = Vec::new();
+    let sep = |u: &mut Unstructured, toks: &mut Vec<Tok>| -> arbitrary::Result<()> {
+        let s = *u.choose(SEPS)?;
+        if !s.is_empty() {
+            toks.push(Tok::Lit(s.to_string()));
+        }
+        Ok(())
+    };
+    if kind != Kind::Time {
+        let y = fld('y', *u.choose(&[4usize, 4, 4, 2, 1, 5])?);
+        let m = fld('M', *u.choose(&[2usize, 2, 2, 1, 3, 4])?);
+        let d = fld('d', *u.choose(&[2usize, 2, 1])?);
+        let order = match u.below(4)? {
+            0 | 1 => [y, m, d],
+            2 => [d, m, y],
+            _ => [m, d, y],
+        };
+        for (i, f) in order.into_iter().enumerate() {
+            if i > 0 {
+                sep(u, &mut toks)?;
+            }
+            toks.push(f);
+        }
+        if u.coin(1, 6)? {
+            toks.push(Tok::Lit(" ".to_string()));
+            toks.push(fld('e', *u.choose(&[3usize, 4, 1])?));
+        }
+    }
+    if kind == Kind::DateTime {
+        match u.below(4)? {
+            0 => toks.push(Tok::Lit("T".to_string())),
+            1 => toks.push(Tok::Quoted("T".to_string())),
+            2 => toks.push(Tok::Lit(" ".to_string())),
+            _ => toks.push(Tok::Quoted(" at ".to_string())),
+        }
+    }
+    if kind != Kind::Date {
+        let twelve = u.coin(1, 4)?;
+        toks.push(fld(if twelve { *u.choose(&['h', 'K'])? } else { *u.choose(&['H', 'H', 'H', 'k'])? }, *u.choose(&[2usize, 2, 2, 1])?));
+        sep(u, &mut toks)?;
+        toks.push(fld('m', *u.choose(&[2usize, 2, 2, 1])?));
+        if u.coin(4, 5)? {
+            sep(u, &mut toks)?;
+            toks.push(fld('s', *u.choose(&[2usize, 2, 2, 1])?));
+            if u.coin(1, 3)? {
+                sep(u, &mut toks)?;
+                toks.push(fld('n', 1 + u.below(5)? as usize));
+            }
+        }
+        if twelve || u.coin(1, 8)? {
+            if u.coin(1, 2)? {
+                toks.push(Tok::Lit(" ".to_string()));
+            }
+            toks.push(fld(*u.choose(&['a', 'a', 'b'])?, 1 + u.below(5)? as usize));
+        }
+        if u.coin(1, 2)? {
+            if u.coin(1, 3)? {
+                toks.push(Tok::Lit(" ".to_string()));
+            }
+            toks.push(fld(*u.choose(&['X', 'x'])?, 1 + u.below(5)? as usize));
+        }
+    }
+    // adjacent fields of the same symbol would merge: keep the tokenisation unambiguous
+    let mut out: Vec<Tok> = Vec::new();
+    for t in toks {
+        if let (Some(Tok::Field { sym: a, .. }), Tok::Field { sym: b, .. }) = (out.last(), &t) {
+            if a == b {
+                out.push(Tok::Lit(":".to_string()));
+            }
+        }
+        if let (Some(Tok::Lit(a)), Tok::Lit(b)) = (out.last().cloned(), &t) {
+            out.pop();
+            out.push(Tok::Lit(format!("{}{}", a, b)));
+            continue;
+        }
+        out.push(t);
+    }
+    Ok(out)
+}
+
 pub fn gen_tokens(u: &mut Unstructured, kind: Kind, max: usize) -> arbitrary::Result<Vec<Tok>> {
+    if max >= 5 && u.coin(1, 6)? {
+        return gen_idiomatic(u, kind);
+    }
     let syms = syms_of(kind);
     let n = 1 + u.below(max as u64)? as usize;
     let mut toks: Vec<Tok> = Vec::new();
